@@ -183,7 +183,7 @@ class Prop:
         bad = phi(self.monitor_cls, lines, impl)
         if bad:
             i, kind, msg = bad
-            return "violation", "line %d `%s`: %s" % (i, lines[i][:80], msg), "phi:" + kind
+            return "violation", "line %d `%s`: %s" % (i, lines[i][:80], msg), "phi:%s:%s" % (kind, lines[i].split(" ", 1)[0])
         i = common.first_diff(impl, model)
         if i is None:
             return "none", "no difference", "none"
@@ -549,6 +549,8 @@ class StrMonitor:
     one block show the same text, refcount + 1 = number of handles on the block, live blocks =
     number of distinct blocks in use.  The alloced field (capacity policy) is not compared."""
     SPACE = b" \t\n\r\x0b\x0c"
+    MUTATING = {"ctor", "ctorn", "ctorc", "ctorsub", "cctor", "copy", "move", "assign", "assignn", "app", "apps", "appc",
+                "plus", "setc", "cap", "minus", "lower", "upper", "strip", "reserve", "clear"}
 
     def __init__(self):
         self.bad = None
@@ -649,10 +651,15 @@ class StrMonitor:
                 self.fail(i, "observation", "string %d: %s" % (h, o[1 + h][:80]))
                 return
             if got != S[h]:
-                others = [g for g in range(4) if g != h and o[1 + g].split(" ")[2] == grp and grp != "n"]
-                kind = "isolation" if others else "contents"
+                # a string the operation does not write to must read what it read before
+                written = set()
+                if op in self.MUTATING:
+                    written.add(int(t[1]))
+                    if op == "move":
+                        written.add(int(t[2]))
+                kind = "contents" if h in written or op == "reset" else "isolation"
                 self.fail(i, kind, "string %d reads %r, an abstract string holds %r%s" % (
-                    h, got, S[h], " (shares its block with %s)" % others if others else ""))
+                    h, got, S[h], "" if kind == "contents" else " (the operation was on string %s)" % t[1]))
             if ln != len(got):
                 self.fail(i, "length", "string %d: length() = %d but c_str() has %d characters" % (h, ln, len(got)))
             if grp != "n":
